@@ -176,7 +176,7 @@ def run(rep, tier, seed):
         rep.cov["distinct_nontrivial"] = len({(render(j["prog"])[0], tuple(j["args"])) for j in jobs})
         rep.cov["rule"] = ("random programs (1-4 statements, printing their observations) with 9 kinds of final statement (null, integer, "
                            "boolean, string, array, let, runtime failure, compile failure, builtin call) x 9 kinds of leading comment / "
-                           "blank lines x 10 argument vectors x 3 "
+                           "blank lines x 10 argument vectors x LF / CRLF line ends x string literals spanning lines x 3 "
                            "modes; distinct = distinct (program, arguments)")
         rep.cov["exhaustive"] = False
         rep.sample({"program": render(jobs[0]["prog"])[0], "args": jobs[0]["args"], "cmd_stdout": jobs[0]["cmd"]["out"].decode("utf8", "replace")[-200:]})
